@@ -79,6 +79,20 @@ class SemanticPointer(Fixed):
     def name(self):
         return None if self._expr_tree is None else str(self._expr_tree)
 
+    @property
+    def type(self):
+        """Type of the pointer (determined by its vocabulary)."""
+        return self._type
+
+    @type.setter
+    def type(self, value):
+        # Type inference assigns the inferred vocabulary type to its less
+        # specific operands. A Semantic Pointer without vocabulary stays
+        # vocabulary-less and must remain combinable with any vocabulary, so
+        # its type is fixed at construction.
+        if not hasattr(self, "_type"):
+            self._type = value
+
     def _get_algebra(cls, vocab, algebra):
         if algebra is None:
             if vocab is None:
